@@ -135,6 +135,8 @@ class LikelihoodEnergyOperator(EnergyOperator):
         return _LikelihoodChain(self, other)
 
     def __rmatmul__(self, other):
+        if not isinstance(other, (LikelihoodEnergyOperator, ScalingOperator)):
+            return _OpChain.make((other, self))
         return _LikelihoodChain(other, self)
 
     def __add__(self, other):
